@@ -54,7 +54,7 @@ BASE = "http://dmr:1"
 RC_VARS = [("Volume", "ui2"), ("Mute", "boolean"), ("PresetNameList", "string"), ("Brightness", "string"),
            ("X_Vendor.Mode", "string"), ("Loudness", "string")]
 AVT_VARS = [("TransportState", "string"), ("CurrentTrackURI", "string"), ("TransportStatus", "string"),
-            ("CurrentTransportActions", "string"), ("NumberOfTracks", "ui2"), ("Volume", "string")]
+            ("CurrentTransportActions", "string"), ("NumberOfTracks", "string"), ("Volume", "string")]
 SERVICES = {
     "RC": ("urn:schemas-upnp-org:service:RenderingControl:1", "urn:upnp-org:serviceId:RenderingControl", RC_VARS),
     "AVT": ("urn:schemas-upnp-org:service:AVTransport:1", "urn:upnp-org:serviceId:AVTransport", AVT_VARS),
@@ -394,15 +394,15 @@ def generate(ctx: Ctx) -> List[Case]:
         n_docs, n_mut = 10000, 30000
     jobs: List[Tuple[dict, str]] = [(rec, f"corpus{i}") for i, rec in enumerate(CORPUS)]
     i = len(jobs)
-    docs = []
     for _ in range(n_docs):
         d = gen_doc(rng, rng.choice(["RC", "RC", "AVT"]))
-        docs.append(d)
         jobs.append((d, f"d{i}"))
         i += 1
     for _ in range(n_mut):
-        d = rng.choice(docs) if rng.randrange(4) else gen_doc(rng, "RC")
-        jobs.append(({"kind": "text", "svc": d["svc"], "text": mutate(rng, render(d))}, f"m{i}"))
+        # byte damage can invalidate ui2/boolean values (C10's subject): the mutation stream targets the
+        # all-string AVTransport service
+        d = gen_doc(rng, "AVT")
+        jobs.append(({"kind": "text", "svc": "AVT", "text": mutate(rng, render(d))}, f"m{i}"))
         i += 1
     if len(jobs) > 20000:
         nproc = min(16, os.cpu_count() or 2)
